@@ -83,8 +83,16 @@ impl CanonStreamMap {
     }
 
     pub(crate) fn as_jvalue(&self) -> JValue {
-        let json_map: air_interpreter_value::Map<JsonString, JValue> =
-            self.map.iter().map(|(k, v)| (k.to_key(), v.as_jvalue())).collect();
+        // The keys are visited in the order of the canonicalized key-value pairs, not in the order of the
+        // hash map: a string key and a number key with the same text ("42" and 42) name one JSON field,
+        // and which of them ends up in the object must not depend on the hash map's iteration order.
+        let mut json_map: air_interpreter_value::Map<JsonString, JValue> = <_>::default();
+        for kvpair_obj in self.values.iter() {
+            let key = StreamMapKey::from_kvpair_owned(kvpair_obj);
+            if let Some((key, canon_stream)) = key.and_then(|key| self.map.get_key_value(&key)) {
+                json_map.insert(key.to_key(), canon_stream.as_jvalue());
+            }
+        }
         json_map.into()
     }
 
